@@ -119,7 +119,7 @@ func (ex *Exec) invoke(st *State, fr *Frame, dst ssa.Value, fv *FuncV, args []Va
 		advance()
 		return nil
 	}
-	if ex.inInit && fn.Name() == "init" && fn.Pkg != ex.Pkg {
+	if ex.inInit && fn.Name() == "init" && fn.Pkg != ex.initPkg {
 		// initialisers of imported packages are skipped
 		advance()
 		return nil
@@ -131,7 +131,7 @@ func (ex *Exec) invoke(st *State, fr *Frame, dst ssa.Value, fv *FuncV, args []Va
 	if len(fn.Blocks) == 0 {
 		panic(unsupported("call to external function without body: " + name + " at " + site(in)))
 	}
-	if fn.Pkg != nil && fn.Pkg != ex.Pkg && !ex.allowedPkg(fn) {
+	if fn.Pkg != nil && fn.Pkg != ex.Pkg && fn.Pkg != ex.CmdPkg && !ex.allowedPkg(fn) {
 		panic(unsupported("call into unmodelled package function: " + name + " at " + site(in)))
 	}
 	ex.noteFunc(fn)
